@@ -2,14 +2,36 @@
 #![allow(dead_code, unused_results, clippy::all)]
 use super::*;
 
-// @harness id=full_collector_counters props=C14,C05,C16,C04 kind=full tier=quick fns=StatsCollector::collect,RdhStats::add_rdhs_seen,RdhStats::add_rdhs_filtered,RdhStats::add_payload_size,RdhStats::add_hbfs_seen,StatsCollector::rdhs_seen,StatsCollector::payload_size,StatsCollector::hbfs_seen,StatsCollector::any_rdhs_seen
-// Routing of the numeric statistics kinds to their accumulators, and commutativity of two updates.
+// @harness id=full_collector_rdh_seen props=C14,C05,C16,C04 kind=full tier=quick fns=StatsCollector::collect,RdhStats::add_rdhs_seen,StatsCollector::rdhs_seen,StatsCollector::any_rdhs_seen
+// Routing of this numeric statistics kind to its accumulator only, and commutativity of two updates.
 #[kani::proof]
 #[kani::unwind(4)]
-fn full_collector_counters() {
-    let k: u8 = kani::any();
-    kani::assume(k <= 3);
-    collector_counters_case(k);
+fn full_collector_rdh_seen() {
+    collector_counters_case(0);
+}
+
+// @harness id=full_collector_rdh_filtered props=C14,C05,C16,C04 kind=full tier=quick fns=StatsCollector::collect,RdhStats::add_rdhs_filtered
+// Routing of this numeric statistics kind to its accumulator only, and commutativity of two updates.
+#[kani::proof]
+#[kani::unwind(4)]
+fn full_collector_rdh_filtered() {
+    collector_counters_case(1);
+}
+
+// @harness id=full_collector_payload_size props=C14,C05,C16,C04 kind=full tier=quick fns=StatsCollector::collect,RdhStats::add_payload_size,StatsCollector::payload_size
+// Routing of this numeric statistics kind to its accumulator only, and commutativity of two updates.
+#[kani::proof]
+#[kani::unwind(4)]
+fn full_collector_payload_size() {
+    collector_counters_case(2);
+}
+
+// @harness id=full_collector_hbfs_seen props=C14,C05,C16,C04 kind=full tier=quick fns=StatsCollector::collect,RdhStats::add_hbfs_seen,StatsCollector::hbfs_seen
+// Routing of this numeric statistics kind to its accumulator only, and commutativity of two updates.
+#[kani::proof]
+#[kani::unwind(4)]
+fn full_collector_hbfs_seen() {
+    collector_counters_case(3);
 }
 
 // @harness id=full_collector_trigger_type props=C14,C05,C16,C04 kind=full tier=quick fns=StatsCollector::collect,RdhStats::record_trigger_type
